@@ -3,7 +3,7 @@ CONSTANTS
   Slots = {1, 2, 3}
   Evil = 3
   ClaimSet = {1}
-  NoteSet = {0, 1}
+  NoteSet = {0}
   Services = {"a"}
   MaxNet = 2
   MaxBlobs = 2
